@@ -356,7 +356,7 @@ func runC06Proto(w *W) {
 							access(g.Node, f.K)
 						case cRepeated:
 							g.Len()
-							for _, i := range []int{0, 1, 5, 1000} {
+							for _, i := range []int{0, 1, 2, 3, 4, 5, 6, 7, 8, 1000} {
 								access(g.Index(i).Node, f.K)
 							}
 						default:
